@@ -203,7 +203,7 @@ func C10(r *ev.Run) {
 	}
 
 	// 4. cascades on the real processor: rule order, fail-fast, pop order, HighestPriority inside actions
-	runCascades(r, rng, map[string]bool{"rstart": true, "pop": true, "hp": true, "push": true, "rend": true}, "C10")
+	runCascades(r, rng, map[string]bool{"rstart": true, "pop": true, "hp": true, "push": true, "rend": true, "finished": true}, "C10")
 }
 
 // monSig classifies a failing monitor history: which defect class it exhibits.
